@@ -45,7 +45,7 @@ Table == <<
  <<"composite/bregman_proximal_point", "tight", "rat", << <<"gamma", {Half, One, R(3, 1)}>>, <<"n", Ints({1, 2, 4})>> >> >>,
  <<"composite/douglas_rachford_splitting", "tight", "own", << <<"L", {One}>>, <<"alpha", {One}>>, <<"theta", {One}>>, <<"n", Ints({1, 2, 3, 5})>> >> >>,
  <<"composite/douglas_rachford_splitting_contraction", "tight", "rat", << <<"mu", {R(1, 10), Half}>>, <<"L", Ls>>, <<"alpha", {Half, One, R(3, 1)}>>, <<"theta", {One}>>, <<"n", Ints({1, 2})>> >> >>,
- <<"composite/frank_wolfe", "upper", "rat", << <<"L", Ls>>, <<"D", {One, Two}>>, <<"n", Ints({1, 2, 4})>> >> >>,
+ <<"composite/frank_wolfe", "upper", "rat", << <<"L", Ls>>, <<"D", {Half, One, Two}>>, <<"n", Ints({1, 2, 4})>> >> >>,
  <<"composite/improved_interior_algorithm", "upper", "rat", << <<"L", {One}>>, <<"mu", {One}>>, <<"c", {One, Two}>>, <<"lam", {One, Half}>>, <<"n", Ints({1, 3})>> >> >>,
  <<"composite/no_lips_in_bregman_divergence", "upper", "rat", << <<"L", Ls>>, <<"gamma", {R(1, 4), Half, One}>>, <<"n", Ints({2, 3})>> >> >>,
  <<"composite/no_lips_in_function_value", "tight", "rat", << <<"L", Ls>>, <<"gamma", {R(1, 4), Half, One}>>, <<"n", Ints({1, 3})>> >> >>,
